@@ -771,6 +771,15 @@ class LoopSummary:
             lf = symx.Leaf(sb.pc, None, sb.store, {}, sb.calls, sb.trace, sb.pc_raw, sb.offs, None, sb.reads)
             lf.loop_obligations = obl
             lf.loop_header = hdr.name
+            lf.loop_t = t
+            lf.loop_cur = {p.res: vp[p.res] for p in phis}
+            lf.loop_next = {}
+            for p in phis:
+                try:
+                    lf.loop_next[p.res] = it.val(p.ops[p.x['labels'].index(pb.name)], sb, fn)
+                except Exception:
+                    pass
+            lf.loop_names = {p.res: fn.varnames.get(p.res, p.res) for p in phis}
             leaves.append(lf)
         self.notes.append('%s: loop at %s summarised (%d closed forms, %d bounded values, %d iteration paths)' % (
             fn.name, hdr.name, len(steps_p) + len(steps_c), len(set(c[0] for c in cand)), len(ro2)))
